@@ -1,6 +1,6 @@
 SPECIFICATION Spec
 CONSTANTS
-  Handles = {"c1", "c2", "c3", "c4", "c5", "c6", "c7", "c8", "c9"}
+  Handles = {"c0", "c1", "c2", "c3", "c4", "c5", "c6", "c7", "c8", "c9"}
   Hooks = {"k1", "p1"}
   Promises = {"p1"}
   Weaks = {"w1", "w2"}
